@@ -40,8 +40,10 @@ def random_grammar(r):
     k = r.random()
     if k < 0.04:
         return common.permuted_pairs_grammar(r)
-    if k < 0.24:
-        return common.loopy_grammar(r)
+    if k < 0.14:
+        # top-level only: inside a word the family can juxtapose literals within a group, which the pinned
+        # compiler rejects (finding KF-I, owned by C08); callers of random_grammar expect accepted grammars
+        return common.loopy_grammar(r, inword=False)
     depth = r.choice([2, 3, 3, 4, 4, 5, 6])
     g = gen.Gen(r, depth=depth, ndefs=(0, r.choice([2, 4, 8])), specs=r.random() < 0.4,
                 builtins=r.random() < 0.3, max_width=r.choice([2, 3, 4]),
